@@ -139,11 +139,14 @@ class FieldGroup:
             NotImplementedError: If the system is not rotationally-symmetric.
         """
         if np.all(self.x_fields == 0):  # assume rotationally symmetric
-            idx_sorted = np.argsort(self.y_fields)
-            if self.max_y_field == 0:
+            # the table is a function of the field magnitude (fields may be
+            # given with either sign)
+            h_fields = np.abs(self.y_fields)
+            idx_sorted = np.argsort(h_fields)
+            if self.max_field == 0:
                 h_sorted = np.zeros(self.num_fields)
             else:
-                h_sorted = self.y_fields[idx_sorted] / self.max_y_field
+                h_sorted = h_fields[idx_sorted] / self.max_field
             vx_sorted = self.vx[idx_sorted]
             vy_sorted = self.vy[idx_sorted]
 
